@@ -26,7 +26,7 @@ PROPS_OF = {
     "lerax/buffer/rollout.py": ["C03", "C09"], "lerax/buffer/replay.py": ["C06"], "lerax/buffer/base_buffer.py": ["C09", "C06"],
     "lerax/algorithm/ppo.py": ["C08", "C09"], "lerax/algorithm/a2c.py": ["C08"], "lerax/algorithm/reinforce.py": ["C08"],
     "lerax/algorithm/dqn.py": ["C07", "C10", "C11", "C12"], "lerax/algorithm/sac.py": ["C07", "C10", "C11", "C12"],
-    "lerax/algorithm/on_policy.py": ["C03", "C04", "C10", "C19", "C11", "C12"], "lerax/algorithm/off_policy.py": ["C05", "C10", "C19", "C11", "C12"],
+    "lerax/algorithm/on_policy.py": ["C03", "C04", "C08", "C10", "C19", "C11", "C12"], "lerax/algorithm/off_policy.py": ["C05", "C07", "C10", "C19", "C11", "C12"],
     "lerax/algorithm/base_algorithm.py": ["C10", "C11", "C12"], "lerax/policy/actor_critic/mlp.py": ["C04", "C16"], "lerax/utils.py": ["C04", "C18", "C19"], "lerax/callback/logging/callback.py": ["C19", "C11"], "lerax/benchmark/__init__.py": ["C19"],
     "lerax/wrapper/transform_action.py": ["C13"], "lerax/wrapper/transform_observation.py": ["C13"], "lerax/wrapper/transform_reward.py": ["C13"],
     "lerax/wrapper/misc.py": ["C13", "C01"], "lerax/wrapper/utils.py": ["C13"], "lerax/wrapper/base_wrapper.py": ["C13"],
